@@ -65,7 +65,7 @@ class T(M):
 # ------------------------------------------------------------------------ generic twins
 def twin_unparse(repo):
     """reformat everything: ast.unparse round trip (comments dropped, quotes/parentheses normalised)"""
-    return {m.relpath: ast.unparse(m.tree) + "\n" for m in repo.modules.values()}
+    return {m.relpath: ast.unparse(ast.parse(m.src)) + "\n" for m in repo.modules.values()}
 
 
 class _Renamer(ast.NodeTransformer):
